@@ -24,15 +24,23 @@ def localFound (idx : Index) (d : Digest) : Bool :=
      | some sz => !isSizeMismatch d.size sz
      | none => false)
 
-/-- back end: `none` = no proxy configured; otherwise its `Contains` verdict -/
-abbrev Proxy := Option (Digest → Bool)
+/-- back end: `none` = no proxy configured; otherwise its `Contains` answer for a digest: `none` =
+absent, `some sz` = present with reported size `sz` (−1 when the back end cannot tell the size) -/
+abbrev Proxy := Option (Digest → Option Int)
+
+/-- when the back end's answer counts as "present" (`containsWorker`): the reported size does not
+contradict the stated size (digests larger than `max_proxy_blob_size` are never sent to it) -/
+def proxyHas (has : Digest → Option Int) (d : Digest) : Bool :=
+  match has d with
+  | none => false
+  | some sz => !isSizeMismatch d.size sz
 
 /-- is the digest still missing after the local lookup (index `idx`) and the back-end check? -/
 def stillMissing (idx : Index) (proxy : Proxy) (maxProxy : Int) (d : Digest) : Bool :=
   !localFound idx d &&
     (match proxy with
      | none => true
-     | some has => decide (d.size > maxProxy) || !has d)
+     | some has => decide (d.size > maxProxy) || !proxyHas has d)
 
 /-- the batch loop: chunk `i` is looked up against the index as it is at that moment (`idxAt i`) -/
 def go (batch : Nat) (idxAt : Nat → Index) (proxy : Proxy) (maxProxy : Int) : Nat → Nat → List Digest → List Digest
